@@ -221,10 +221,10 @@ theorem parseOp_lay (op wn : Str) (ho : CanonOp op) (hwn : op = s_not_in → WsR
 
 /-! ### `_parse_marker_item` -/
 
-def endFollows : List (Option Nat) := [none, some 32, some 9, some 41]
+def endFollows : List (Option Nat) := [none, some 32, some 9, some 41, some 10]
 
 theorem endFollows_sub {x : Option Nat} (h : x ∈ endFollows) : x ∈ varFollows := by
-  simp [endFollows] at h; rcases h with rfl | rfl | rfl | rfl <;> simp [varFollows]
+  simp [endFollows] at h; rcases h with rfl | rfl | rfl | rfl | rfl <;> simp [varFollows]
 
 theorem renderAtom_ne (a : Atom) (L : AtomLay) (hf : FitsAtom a L) : renderAtom a L ≠ [] := by
   have := renderNode_ne a.lhs L.lhs hf.1
